@@ -15,6 +15,7 @@ import (
 	"time"
 
 	"github.com/EliCDavis/polyform/generator/artifact"
+	"github.com/EliCDavis/polyform/generator/artifact/basics"
 	"github.com/EliCDavis/polyform/generator/graph"
 	"github.com/EliCDavis/polyform/generator/parameter"
 	"github.com/EliCDavis/polyform/nodes"
@@ -109,6 +110,9 @@ type graphSpec struct {
 	Init      []int
 	Nodes     []nodeSpec
 	Producers []int // node index per producer
+	// RealProducer: use the library's basics.TextNode instead of the
+	// harness producer for this producer
+	RealProducer []bool
 }
 
 func (g graphSpec) evalRef(r int, st []int) string {
@@ -166,6 +170,7 @@ func genGraph(c choice.Chooser) graphSpec {
 		} else {
 			g.Producers = append(g.Producers, c.Intn("g:prodnode", nn))
 		}
+		g.RealProducer = append(g.RealProducer, choice.Bool(c, "g:realproducer"))
 	}
 	return g
 }
@@ -203,9 +208,15 @@ func build(g graphSpec) built {
 	}
 	b.inst = graph.New(&refutil.TypeFactory{})
 	for k, ni := range g.Producers {
-		prod := &nodes.Struct[artifact.Artifact, ProdData]{Data: ProdData{In: ns[ni].Out()}}
 		name := fmt.Sprintf("out%d.txt", k)
-		b.inst.AddProducer(name, prod.Out())
+		if k < len(g.RealProducer) && g.RealProducer[k] {
+			// the library's own text producer and artifact type: what it
+			// hands out must stay valid after the lock is released
+			b.inst.AddProducer(name, basics.NewTextNode(ns[ni].Out()))
+		} else {
+			prod := &nodes.Struct[artifact.Artifact, ProdData]{Data: ProdData{In: ns[ni].Out()}}
+			b.inst.AddProducer(name, prod.Out())
+		}
 		b.prodName = append(b.prodName, name)
 	}
 	for p := range params {
